@@ -25,7 +25,8 @@ ASSUMPTIONS = ["a fresh interpreter process with a private parser cache is the r
 
 METHODS = ["infer", "goto", "complete", "get_signatures", "get_references", "get_names"]
 OPS = ["insert_line", "delete_line", "replace_line", "dup_line", "insert_chars", "delete_chars", "indent", "dedent",
-       "paste", "undo", "switch_path", "edit_def", "edit_def", "append_call", "none", "multiline_call", "flip_callee"]
+       "paste", "undo", "switch_path", "edit_def", "edit_def", "append_call", "none", "multiline_call", "flip_callee",
+       "page_break", "eol_style"]
 SNIPPETS = ["value_x = 1", "def helper_new(arg_a, arg_b=2):\n    return arg_a", "class FreshClass:\n    attr_q = 'q'",
             "import os", "    pass", "result_y = helper_new(1)", "for item_z in range(3):\n    print(item_z)", "# comment", ""]
 
@@ -97,6 +98,21 @@ def apply_op(text, step, history):
             else:
                 params = re.sub(r"\b(\w+)\b", lambda mm: mm.group(1) + "_r" if mm.group(1) not in ("self", "cls", "None") and not mm.group(1).isdigit() else mm.group(1), params, count=1)
             lines[q] = m.group(1) + params + m.group(3)
+    elif op == "page_break":
+        # a form feed on a line of its own between top-level statements (the page breaks of much of the stdlib), or
+        # removed again; the reference is a fresh process on the same text, so the parser's view of it cancels out
+        if "\x0c" in lines:
+            lines.remove("\x0c")
+        else:
+            tops = [q for q, l in enumerate(lines) if l and not l[0].isspace() and (q == 0 or not lines[q - 1].rstrip().endswith(("\\", ",", "(", "[", "{", ":")))]
+            if tops:
+                lines.insert(tops[int(a * len(tops))], "\x0c")
+    elif op == "eol_style":
+        # the whole buffer switches between LF and CRLF line ends (an editor setting)
+        if any(l.endswith("\r") for l in lines):
+            lines = [l[:-1] if l.endswith("\r") else l for l in lines]
+        else:
+            lines = [l + "\r" for l in lines[:-1]] + lines[-1:]
     elif op == "multiline_call":
         # two callables with names of equal length and a call spread over two lines at the end of the buffer
         if "def zz_aaa(" not in text:
